@@ -12,7 +12,11 @@ cleanup() { git -C /repo worktree remove --force "$wt" 2>/dev/null; git -C /repo
 git -C "$wt" apply "$out/m$k.diff" || { echo "CONFIRM $id: patch does not apply"; cleanup; exit 1; }
 pkgs=$(git -C "$wt" diff --name-only | grep '\.go$' | xargs -n1 dirname | sort -u | sed 's|^|./|' | tr '\n' ' ')
 demo_pkg=$(python3 -c "import json;print(json.load(open('$j'))['demo_pkg'])")
-demo_cmd=$(python3 -c "import json;print(json.load(open('$j'))['demo_cmd'])")
+demo_cmd=$(python3 -c "
+import json,re
+c=json.load(open('$j'))['demo_cmd']
+i=c.find('go test')
+print(c[i:] if i>0 else c)")
 ( cd "$wt" && go build ./... ) > /tmp/confirm-$id.log 2>&1 || { echo "CONFIRM $id: build fails"; tail -5 /tmp/confirm-$id.log; cleanup; exit 1; }
 ( cd "$wt" && go test -vet=off -count=1 -timeout 20m $pkgs ) >> /tmp/confirm-$id.log 2>&1 || { echo "CONFIRM $id: existing tests of touched packages FAIL with the change"; tail -15 /tmp/confirm-$id.log; cleanup; exit 1; }
 cp "$out"/m${k}_demo/*_test.go "$wt/$demo_pkg/" 2>/dev/null
